@@ -244,9 +244,21 @@ Definition do_await (c : conn) : conn * Z :=
             (cntag c) (cclosed c) (creqs c), Z.of_nat (S k))
     end.
 
+(* mpt_outdata_push (datagram backend) refuses while a received datagram waits for its dispatch
+   (MPT_OUTFLAG(Received)): MPT_MESGERR(ActiveInput), nothing changes *)
+Definition push_blocked (c : conn) : bool := cdg c && ccur c.
+(* deregisterCommand in mpt_connection_push after a failed push: the answer handler registered under con->cid
+   is called with NULL; it stays registered and con->cid stays *)
+Definition push_fail_calls (c : conn) : list (nat * option (list byte)) :=
+  if (ccid c =? 0)%N then []
+  else match tfind (ctab c) (ccid c) with Some (_, tg) => [(tg, None)] | None => [] end.
+Definition push_calls (c : conn) : list (nat * option (list byte)) :=
+  if push_blocked c then push_fail_calls c else [].
+
 (* mpt_connection_push(con, len, src) with len > 0 *)
 Definition do_push (c : conn) (pay : list byte) : conn * Z * bool :=
-  if negb (cact c) && negb (cidl c =? 0) then
+  if push_blocked c then (c, EActiveInput, false)
+  else if negb (cact c) && negb (cidl c =? 0) then
     match id2buf (ccid c) (cidl c) with
     | Ok (bs, _) => (set_out c (ccid c) true (cout c ++ bs ++ pay), Z.of_nat (length pay), false)
     | Err _ => (c, EMissingBuffer, false)
@@ -256,6 +268,7 @@ Definition do_push (c : conn) (pay : list byte) : conn * Z * bool :=
 
 (* mpt_connection_push(con, 0, 0): the message is complete *)
 Definition do_finish (c : conn) : conn * Z * list (list byte) * bool :=
+  if push_blocked c then (c, EActiveInput, [], false) else
   let '(c1, f) :=
     if negb (cact c) && negb (cidl c =? 0) then
       match id2buf (ccid c) (cidl c) with
@@ -496,15 +509,15 @@ Section Conn.
           let cid := ccid c1 in
           let '(c2, p1, f1) := if is_nil pay then (c1, 0%Z, false) else do_push c1 pay in
           let '(c3, p2, ws, f2) := do_finish c2 in
-          ((r, c3), mkcr (RAw ra cid p1 (Some p2)) [] ws (f1 || f2))
+          ((r, c3), mkcr (RAw ra cid p1 (Some p2)) ((if is_nil pay then [] else push_calls c1) ++ push_calls c2) ws (f1 || f2))
         | CPs pay =>
           let '(c1, ra) := do_await c in
           let c1 := set_ntag c1 (S (cntag c1)) in
           let cid := ccid c1 in
           let '(c2, p1, f1) := do_push c1 pay in
-          ((r, c2), mkcr (RAw ra cid p1 None) [] [] f1)
+          ((r, c2), mkcr (RAw ra cid p1 None) (push_calls c1) [] f1)
         | CPe =>
-          let '(c1, p2, ws, f) := do_finish c in ((r, c1), mkcr (RPe p2) [] ws f)
+          let '(c1, p2, ws, f) := do_finish c in ((r, c1), mkcr (RPe p2) (push_calls c) ws f)
         | CSy => let '(c1, z, wc) := do_sync c in ((r, c1), nofault (RSy z) wc [])
         | CCl =>
           (* mpt_connection_fini: close the backend, mpt_command_clear, release the reply context *)
